@@ -81,6 +81,20 @@ fn perturb_draw() -> Option<simcore::prng::Prng> {
     })
 }
 
+/// State of the perturbed shadow calls on this thread (handed over when a history continues on another thread).
+pub fn perturb_state() -> (u64, u64) {
+    PERTURB.with(std::cell::Cell::get)
+}
+
+pub fn set_perturb_state(state: (u64, u64)) {
+    PERTURB.with(|p| p.set(state));
+}
+
+/// Installs a log taken on another thread (a history that continues on this one).
+pub fn set_log(log: LockstepLog) {
+    LOG.with(|l| *l.borrow_mut() = log);
+}
+
 pub fn take_violations() -> Vec<String> {
     LOG.with(|l| std::mem::take(&mut l.borrow_mut().violations))
 }
